@@ -47,8 +47,8 @@ func (p *Prog) Census() *Census {
 		escaped: map[*ssa.Alloc]bool{}, gstores: map[*ssa.Global][]*ssa.Store{}, captured: map[*ssa.Alloc]bool{}}
 	// 1. closure bindings: resolve every free variable to its root Alloc
 	parentBinding := map[*ssa.FreeVar]ssa.Value{}
-	for _, fn := range p.ModFuncs {
-		Instrs(fn, func(in ssa.Instruction) {
+	for _, fn := range p.AllModFuncs() {
+		InstrsShallow(fn, func(in ssa.Instruction) {
 			mc, ok := in.(*ssa.MakeClosure)
 			if !ok {
 				return
@@ -90,9 +90,9 @@ func (p *Prog) Census() *Census {
 		c.storers[a][f] = true
 	}
 	// 2. scan all instructions
-	for _, fn := range p.ModFuncs {
+	for _, fn := range p.AllModFuncs() {
 		fn := fn
-		Instrs(fn, func(in ssa.Instruction) {
+		InstrsShallow(fn, func(in ssa.Instruction) {
 			switch i := in.(type) {
 			case *ssa.FieldAddr:
 				fv := originVar(FieldVar(i.X.Type(), i.Field))
